@@ -564,6 +564,242 @@ func init() {
 			}
 			r.Floor("TypeString uses in show", n, 1)
 		})
+	register("C10.R10", "every package that can declare a set or a provider is known to the object cache: newObjectCache's worklist registers a package exactly when it is taken off the stack for the first time and then pushes ALL its imports — a package registered when it is pushed is skipped when popped, and whatever it imports is never reached",
+		func(c *Ctx, r *R) {
+			fi := r.Need(c.Fn(c.W, "newObjectCache"), "newObjectCache")
+			if fi == nil {
+				return
+			}
+			var loop *ast.ForStmt
+			fi.inspect(fi.Decl.Body, func(nd ast.Node) bool {
+				if f, ok := nd.(*ast.ForStmt); ok && loop == nil && f.Cond != nil {
+					loop = f
+				}
+				return true
+			})
+			if loop == nil {
+				r.Bad("worklist", fi.Decl.Pos(), "worklist loop not found")
+				return
+			}
+			// the popped element
+			var popped *types.Var
+			for _, s := range loop.Body.List {
+				if as, ok := s.(*ast.AssignStmt); ok && as.Tok == token.DEFINE && len(as.Lhs) == 1 {
+					if _, isIx := ast.Unparen(as.Rhs[0]).(*ast.IndexExpr); isIx {
+						popped = fi.varOf(as.Lhs[0])
+					}
+				}
+			}
+			writes, okWrite := 0, true
+			fi.inspect(loop.Body, func(nd ast.Node) bool {
+				as, ok := nd.(*ast.AssignStmt)
+				if !ok || len(as.Lhs) != 1 {
+					return true
+				}
+				ix, ok := ast.Unparen(as.Lhs[0]).(*ast.IndexExpr)
+				if !ok {
+					return true
+				}
+				if f := fi.selField(ix.X); f == nil || f.Name() != "packages" {
+					return true
+				}
+				writes++
+				if popped == nil || fi.varOf(as.Rhs[0]) != popped {
+					okWrite = false
+				}
+				return true
+			})
+			r.Check(writes == 1 && okWrite, "worklist/registered-when-popped", loop.Pos(), "the package map is written once per iteration, with the package just taken off the stack (%d writes)", writes)
+			// all imports of the popped package are pushed, unconditionally
+			okPush := false
+			fi.inspect(loop.Body, func(nd ast.Node) bool {
+				rs, ok := nd.(*ast.RangeStmt)
+				if !ok {
+					return true
+				}
+				f := fi.selField(rs.X)
+				if f == nil || f.Name() != "Imports" || popped == nil || fi.varOf(rs.X.(*ast.SelectorExpr).X) != popped {
+					return true
+				}
+				for _, s := range rs.Body.List {
+					if as, ok := s.(*ast.AssignStmt); ok && len(as.Rhs) == 1 {
+						if ap := fi.isBuiltin(as.Rhs[0], "append"); ap != nil && len(ap.Args) == 2 && fi.varOf(ap.Args[1]) == fi.varOf(rs.Value) && fi.loopComplete(rs) {
+							okPush = true
+						}
+					}
+				}
+				return true
+			})
+			r.Check(okPush, "worklist/all-imports-pushed", loop.Pos(), "every import of a newly registered package is pushed, under no condition")
+		})
+	register("C16.R8", "generation never writes into the loaded syntax: copies keep the identity of identifiers (types.Info is keyed by them), so an identifier of a copy IS the loaded one — rewritePkgRefs may replace nodes through the cursor but never assigns to a field of a node it did not create itself, or one package's output would depend on what was generated before it in the same run",
+		func(c *Ctx, r *R) {
+			n := 0
+			for _, name := range []string{"gen.rewritePkgRefs", "gen.writeAST", "copyNonInjectorDecls", "accessibleFrom"} {
+				fi := c.Fn(c.W, name)
+				if fi == nil {
+					continue
+				}
+				r.Need(fi, name)
+				bad := 0
+				fi.inspect(fi.Decl.Body, func(nd ast.Node) bool {
+					as, ok := nd.(*ast.AssignStmt)
+					if !ok {
+						return true
+					}
+					for _, l := range as.Lhs {
+						sel, ok := ast.Unparen(l).(*ast.SelectorExpr)
+						if !ok || fi.selField(sel) == nil {
+							continue
+						}
+						t := fi.Info.TypeOf(sel.X)
+						if t == nil {
+							continue
+						}
+						nt, ok := derefType(t).(*types.Named)
+						if !ok || nt.Obj().Pkg() == nil || nt.Obj().Pkg().Path() != "go/ast" {
+							continue
+						}
+						n++
+						// allowed: the node was created here (a local bound to &ast.T{…} / ast.NewIdent(…))
+						created := false
+						if d := fi.defOf(sel.X); d != nil {
+							src := ast.Unparen(d.rhs)
+							if u, ok := src.(*ast.UnaryExpr); ok && u.Op == token.AND {
+								_, created = u.X.(*ast.CompositeLit)
+							}
+							if fi.isCall(src, "go/ast.NewIdent") != nil {
+								created = true
+							}
+						}
+						if !created {
+							bad++
+							r.Bad(name+"/writes-shared-node#"+itoa(bad), as.Pos(), "a field of a syntax node that was not created here is assigned (%s): identifiers of a copy are the loaded ones", exprShort(l))
+						}
+					}
+					return true
+				})
+				if bad == 0 {
+					r.Ok(name+"/no-writes-to-shared-nodes", fi.Decl.Pos(), "no field of a go/ast node obtained from the walk is assigned")
+				}
+			}
+		})
+
+	register("C19.R9", "in show's grouping, −1 is the only value that means \"supplied from outside\": every decision on a visited-index (inputVisited.At(t).(int)) separates −1 from the group indices 0, 1, 2, … — group 0 is a group like any other",
+		func(c *Ctx, r *R) {
+			fi := r.Need(c.Fn(c.Cmd, "gather"), "gather")
+			if fi == nil {
+				return
+			}
+			n := 0
+			idx := map[*types.Var]bool{}
+			fi.inspect(fi.Decl.Body, func(nd ast.Node) bool {
+				as, ok := nd.(*ast.AssignStmt)
+				if !ok || len(as.Lhs) != 1 || len(as.Rhs) != 1 {
+					return true
+				}
+				if ta, ok := ast.Unparen(as.Rhs[0]).(*ast.TypeAssertExpr); ok && types.ExprString(ta.Type) == "int" {
+					if fi.isCall(ta.X, "golang.org/x/tools/go/types/typeutil.Map.At") != nil {
+						if v := fi.varOf(as.Lhs[0]); v != nil {
+							idx[v] = true
+						}
+					}
+				}
+				return true
+			})
+			fi.inspect(fi.Decl.Body, func(nd ast.Node) bool {
+				be, ok := nd.(*ast.BinaryExpr)
+				if !ok {
+					return true
+				}
+				switch be.Op {
+				case token.EQL, token.NEQ, token.LSS, token.LEQ, token.GTR, token.GEQ:
+				default:
+					return true
+				}
+				v := fi.varOf(be.X)
+				if v == nil || !idx[v] {
+					return true
+				}
+				k, isConst := fi.constInt(be.Y)
+				if !isConst {
+					return true
+				}
+				n++
+				ok2 := (be.Op == token.EQL || be.Op == token.NEQ) && k == -1 || (be.Op == token.LSS || be.Op == token.GEQ) && k == 0 || (be.Op == token.LEQ || be.Op == token.GTR) && k == -1
+				r.Check(ok2, "gather/sentinel-test#"+itoa(n), be.Pos(), "the test separates −1 from the indices ≥ 0 (%s)", exprShort(be))
+				return true
+			})
+			r.Floor("decisions on a visited index", n, 2)
+		})
+
+	register("C06.R6", "a cached failure stays a failure: when the object cache answers from its table it returns the errors recorded with the entry — dropping them hands the caller a nil or half-built item as if it were usable",
+		func(c *Ctx, r *R) {
+			fi := r.Need(c.Fn(c.W, "objectCache.get"), "objectCache.get")
+			if fi == nil {
+				return
+			}
+			n := 0
+			for _, ret := range fi.returnsOf() {
+				if len(ret.Results) != 2 {
+					continue
+				}
+				f := fi.selField(ret.Results[0])
+				if f == nil || f.Name() != "val" {
+					continue
+				}
+				n++
+				// the error result derives from the same entry's errs
+				okE := false
+				ast.Inspect(ret.Results[1], func(m ast.Node) bool {
+					if e, ok := m.(ast.Expr); ok {
+						if f2 := fi.selField(e); f2 != nil && f2.Name() == "errs" {
+							okE = true
+						}
+					}
+					return true
+				})
+				r.Check(okE, "cache-hit/returns-recorded-errors", ret.Pos(), "the cache hit returns the entry's recorded errors with its value")
+			}
+			r.Floor("cache-hit returns", n, 1)
+		})
+	register("C10.R11", "marker calls are recognised by the object the callee denotes, however it is spelled: outside qualifiedIdentObject nothing matches the syntax of a call's Fun against *ast.SelectorExpr or *ast.Ident — a dot-imported wire makes every marker a bare identifier, an import alias changes the qualifier, parentheses wrap either",
+		func(c *Ctx, r *R) {
+			n, bad := 0, 0
+			for _, fi := range c.all {
+				if fi.Pkg != c.W || fi.Name == "qualifiedIdentObject" {
+					continue
+				}
+				fi := fi
+				fi.inspect(fi.Decl.Body, func(nd ast.Node) bool {
+					ta, ok := nd.(*ast.TypeAssertExpr)
+					if !ok || ta.Type == nil {
+						return true
+					}
+					f := fi.selField(unparenArg(fi, ta.X))
+					if f == nil || f.Name() != "Fun" {
+						return true
+					}
+					n++
+					switch types.ExprString(ta.Type) {
+					case "*ast.SelectorExpr", "*ast.Ident":
+						bad++
+						r.Need(fi, fi.Name)
+						r.Bad(fi.Name+"/callee-matched-by-spelling#"+itoa(bad), ta.Pos(), "the callee of a call is matched against %s: a dot-imported or parenthesised marker is then not recognised", types.ExprString(ta.Type))
+					}
+					return true
+				})
+			}
+			if bad == 0 {
+				r.Ok("callee-matched-by-object", token.NoPos, "no function matches a call's Fun against an identifier or selector shape (%d assertions on Fun examined)", n)
+			}
+			// the one resolver is used where the markers are recognised
+			for _, name := range []string{"objectCache.processExpr", "bindShouldUsePointer", "findInjectorBuild"} {
+				if fi := r.Need(c.Fn(c.W, name), name); fi != nil {
+					r.Check(len(fi.callsTo(pathW+".qualifiedIdentObject")) > 0, name+"/resolves-callee-by-object", fi.Decl.Pos(), "%s resolves callees with qualifiedIdentObject", name)
+				}
+			}
+		})
 }
 
 // unparenArg returns the argument of an Unparen call (through locals), or e itself.
